@@ -609,6 +609,7 @@ def run_check(prop, tier):
             "rule": mod.RULE,
             "samples": samples,
             "runs": runs, "hash_seeds": hash_seeds, "run_index_range": [0, runs - 1],
+            "incarnations": [{"hash_seed": h, "TZ": LOCAL_ZONES[int(h) % len(LOCAL_ZONES)]} for h in hash_seeds],
             "logical_steps": steps,
             "runs_per_hour": int(evals / wall * 3600) if wall > 0 else 0,
             "simulated_time": f"none - no clock in scope of the property; logical steps = {steps}",
